@@ -52,10 +52,10 @@ CHECKS["C03"] = {
             "extension, other variant's lengths, bit flips, field edits incl. q-1/q/q+1/16383 and the reserved secret-key "
             "pattern, all-zero/all-one bodies), every length 0..2400 x 8 headers, each string fed to all three decoders of the "
             "variant; for verify: the cursor sweep of C07 at production sizes under four public keys (honest, zero, all q-1, "
-            "random), bit-flipped honest signatures, sparse random bodies; (hash-extremes) verify on (salt, message) pairs whose hash stream rejects unusually many chunks (selected with the reference hash from 6e6 candidates). distinct_nontrivial = distinct (variant, decoder, "
+            "random), bit-flipped honest signatures, sparse random bodies; (verify-crafted) verify on hash-aware crafted triples whose public key is solved from the hash so that s1 takes chosen values: enormous norms in several mass layouts (spread, front-/back-loaded, one aligned block, two-step), every s1 coefficient at +-6144, exact-boundary and lopsided norms; (hash-extremes) verify on (salt, message) pairs whose hash stream rejects unusually many chunks (selected with the reference hash from 6e6 candidates). distinct_nontrivial = distinct (variant, decoder, "
             "mutation family, outcome) cells + distinct (variant, public key, cursor cell) cells.",
     "assumptions": ["a panic is the only failure mode of safe Rust here (no unsafe in the crate); allocation failure is not exercised"],
-    "legs": [{"name": "decoders", "profiles": BOTH}, {"name": "verify-hostile", "profiles": BOTH}, {"name": "hash-extremes", "profiles": BOTH},
+    "legs": [{"name": "decoders", "profiles": BOTH}, {"name": "verify-hostile", "profiles": BOTH}, {"name": "hash-extremes", "profiles": BOTH}, {"name": "verify-crafted", "profiles": BOTH},
              {"name": "miri-decode", "external": "miri", "tiers": ["thorough"], "shards": [["decode", i, 16] for i in range(16)]},
              {"name": "fuzz", "external": "fuzz", "tiers": ["thorough"], "seconds": 180}],
     "technique": "panic monitor (sanitizer for safe Rust) over structure-aware hostile inputs on release and overflow-checked builds; Miri leg in the thorough tier",
@@ -74,10 +74,10 @@ CHECKS["C02"] = {
             "cursor sweep of malformed/edge encodings under honest, zero, all-(q-1), monomial and random public keys; crafted "
             "triples whose norm is EXACTLY bound+d for d in {-3..3, +-1000, +-q}: s2 chosen NTT-invertible (dense, sparse, "
             "large, and lopsided: s2 alone carries more than half of the bound), s1 with coefficients at +-6144/+-6143 in one style and completed by a four-square decomposition, "
-            "h = (c - s1)/s2; an interleaved pass alternates both variants in one thread, re-uses and revisits public keys (A, B, A) and swaps keys between signatures. distinct_nontrivial = distinct triples whose class is non-trivial (honest accepted, mutated, "
+            "h = (c - s1)/s2; triples whose TRUE norm is enormous but small modulo 2^31 / 2^32 / 3*2^32 in four mass layouts (spread, front-loaded, back-loaded, two-step: a first region just below 2^31 followed by one aligned block of 16/32/64 coefficients that alone adds more than 2^31 using s1 at the range edge and s2 coefficients near 12159); an interleaved pass alternates both variants in one thread, re-uses and revisits public keys (A, B, A) and swaps keys between signatures. distinct_nontrivial = distinct triples whose class is non-trivial (honest accepted, mutated, "
             "aliased, malformed cell, exact-norm) counted by (class, variant, case id).",
     "assumptions": ["reference Algorithm 16 in harness/src/refs (self-tested against SHAKE known answers and against PQClean at the exact boundary on every run)"],
-    "legs": [{"name": "differential"}, {"name": "boundary"}],
+    "legs": [{"name": "differential"}, {"name": "boundary", "profiles": BOTH}],
     "technique": "differential monitor against an independent reference verifier (second oracle: PQClean), with crafted exact-norm triples at bound-1/bound/bound+1",
     "level_text": "Sampled equivalence with the specification's verifier on structured adversarial triples, including exact-boundary norms that no honest signer produces.",
     "level_note": "equivalence is sampled, not proved; triples outside the generated classes are not covered",
